@@ -64,14 +64,32 @@ FnIvGroups / FnIvFast / FnIvInPlay -- merge.py, the per-row decisions of the tab
     `>=` -> `>` in flatten's fast path                                       FnIvFast.v source_flatten_fast fails
     `row.end >= bp_end` -> `row.end > bp_end` in _flatten_tuples             FnIvInPlay.v source_in_play_test fails
 
+FnIvSquash -- merge._squash_tuples, the whole body: a group of one row is returned as it is, a larger one as
+  `firsttup._replace(**newfields)` (rows, fields and the combined row are opaque values).
+  Tie (C06_source_squash / C06_source_merge_slow): Model/Intervals.v squash / merge_slow ARE the generated function on the
+  group's size, first row and the model's combined row, through any encoding of rows as opaque values.
+  Mutations: `if len(rows) == 1:` -> `!= 1`; `return firsttup` -> `return firsttup._replace(**newfields)`: both break
+  Proofs/FnIvSquash.v (source_squash_tuples).
+
+FnIvFlatten -- merge._flatten_tuples / _flatten_tuples_split, the generator's body: `yield first_row` for a single row,
+  otherwise `for bp_start, bp_end in zip(breaks[:-1], breaks[1:])` with one `first_row._replace(start=bp_start,
+  end=bp_end, **extra_fields)` per pass, read on (start, end) (yield_record star=True: both declared fields are explicit,
+  a mapping holding one of them is a TypeError, recorded); `breaks` is an integer list, the comprehensions of the loop body
+  are opaque values bound inside one pass.
+  Tie (C06_source_flatten_group): the coordinates of Model/Intervals.v flatten_group ARE what the generated body yields
+  on the model's breakpoints (pairs l = zip(l[:-1], l[1:])).
+  Mutations (each breaks Proofs/FnIvFlatten.v at source_flatten_tuples):
+    `zip(breaks[:-1], breaks[1:])` -> `zip(breaks, breaks[1:])`
+    `_replace(start=bp_start, end=bp_end, **extra_fields)` -> `_replace(start=bp_end, end=bp_start, **extra_fields)`
+    `if len(rows) == 1:` (before `yield first_row`) -> `if len(rows) <= 2:`
+
 intersection(mode="trim") -- C06_source_trim_row / C06_source_intersect_chunks (Proofs/FnIvTrim.v) reuse the module
   'FnRangesIter' of tools/fnspecs/ranges_loops.py (one iteration of intersect.iter_ranges per selected row): Model/
   Intervals.v trim_row IS that iteration in mode "trim".  Mutations `subtable.start.clip(lower=start_val)` ->
   `clip(upper=start_val)` and `if end_val:` -> `if end_val is not None:` break Proofs/FnIvTrim.v (source_trim_row).
 
-Still outside: _flatten_tuples' yield `first_row._replace(start=bp_start, end=bp_end, **extra_fields)` (a `**mapping`:
-"row._replace with a field outside the declared record fields"), `breaks = sorted(set(itertools.chain(...)))` and the
-dict comprehension of combiners (model: breaks / comb); _squash_tuples (dict comprehension over pandas Series).
+Still outside: `breaks = sorted(set(itertools.chain(...)))` and the dict comprehensions of combiners (inputs here; model:
+breaks / comb), the groupby / DataFrame plumbing of merge() and flatten() (model: merge_sel / flatten_sel, g_merge).
 """
 import ast, os, sys
 
@@ -200,13 +218,7 @@ def _rule_in_play(name):
     if {ast.unparse(n) for n in ast.walk(t) if isinstance(n, (ast.Name, ast.Attribute))} - \
             {'row', 'row.start', 'row.end', 'bp_start', 'bp_end'}:
         raise ValueError('%s: the rows_in_play test reads other names: %s' % (name, ast.unparse(t)))
-    loops = [s for s in ast.walk(fn) if isinstance(s, ast.For)]
-    if len(loops) != 1 or ast.unparse(loops[0].target) != '(bp_start, bp_end)' \
-            or ast.unparse(loops[0].iter) != 'zip(breaks[:-1], breaks[1:])':
-        raise ValueError('%s: the loop is no longer for bp_start, bp_end in zip(breaks[:-1], breaks[1:])' % name)
-    ys = [ast.unparse(s) for s in loops[0].body if isinstance(s, ast.Expr) and isinstance(s.value, ast.Yield)]
-    if ys != ['yield first_row._replace(start=bp_start, end=bp_end, **extra_fields)']:
-        raise ValueError('%s: the loop no longer yields first_row._replace(start=bp_start, end=bp_end, **extra_fields)' % name)
+    # (the loop header and the yield are translated by the module 'FnIvFlatten')
     return ast.unparse(t)
 
 
@@ -250,7 +262,43 @@ def _spec_in_play(name, coq, py):
                 returns=[e], ret='B')
 
 
+# merge._squash_tuples, the whole body: one row is returned as it is, several are combined (the list of rows, the dict of
+# combined fields and the namedtuple built from it are opaque inputs keyed by their source text)
+_SQUASH = dict(
+    name='_squash_tuples', coq='fn_squash_tuples', py_params=['keyed_rows', 'combine'],
+    params=[('[kr[1] for kr in keyed_rows]', 'Z', 'rows_in'), ('len(rows)', 'Z', 'n_rows'), ('rows[0]', 'Z', 'first'),
+            ('{key: combiner(pd.Series([getattr(r, key) for r in rows])) for key, combiner in combine.items()}', 'Z', 'fields'),
+            ('firsttup._replace(**newfields)', 'Z', 'combined')],
+    ret='Z')
+
+# merge._flatten_tuples / _flatten_tuples_split, the generator's body: a single row is yielded as it is; otherwise one
+# row per pair of consecutive breakpoints, `first_row._replace(start=bp_start, end=bp_end, **extra_fields)`, read on
+# (start, end).  `breaks` is an integer list (input: sorted(set(...)) of the rows' coordinates), the comprehensions of the
+# loop body are opaque values bound inside one pass.  (`**extra_fields`: star=True -- both declared fields are explicit, so
+# a mapping holding `start` / `end` is a TypeError, a recorded error path.)
+_BREAKS = 'sorted(set(itertools.chain(*[(r.start, r.end) for r in rows])))'
+_FIRST = dict(base='first_row', fields=['start', 'end'], star=True)
+
+
+def _flatten_spec(name, coq, py):
+    return dict(
+        name=name, coq=coq, py_params=py,
+        fragment=dict(first='rows = ', last='if len(rows)'),
+        yields=['Z', 'Z'], yield_record=_FIRST,
+        params=[('[kr[1] for kr in keyed_rows]', 'Z', 'rows_in'), ('len(rows)', 'Z', 'n_rows'), ('rows[0]', 'Z', 'first'),
+                ('first_row.start', 'Z', 'first_start'), ('first_row.end', 'Z', 'first_end'),
+                ('[x for x in first_row._fields[3:] if x in combine]', 'Z', 'extra_cols_in'),
+                (_BREAKS, 'LZ', 'breaks_in'),
+                ('[row for row in rows if row.start <= bp_start and row.end >= bp_end]', 'Z', 'in_play'),
+                ('{key: combine[key]([getattr(r, key) for r in rows_in_play]) for key in extra_cols}', 'Z', 'combined')],
+        returns=['yield__'], ret='Y')
+
+
 MODULES = {
+    'FnIvFlatten': ('skgenome/merge.py', [
+        _flatten_spec('_flatten_tuples', 'fn_flatten_tuples', ['keyed_rows', 'combine']),
+        _flatten_spec('_flatten_tuples_split', 'fn_flatten_tuples_split', ['keyed_rows', 'combine', 'split_columns'])]),
+    'FnIvSquash': ('skgenome/merge.py', [_SQUASH]),
     'FnIvSplitLoop': ('skgenome/subdivide.py', _SPLIT),
     'FnIvSubtract': ('skgenome/subtract.py', _SUBTRACT),
     'FnIvGroups': ('skgenome/merge.py', [_spec_group_break()]),
